@@ -285,12 +285,42 @@ def evaluate_payload_template(input, context, template):
                 )
             template_string = args[0]
             args = args[1:]
-            try:
-                return template_string.format(*args)
-            except Exception as e:
+            if not isinstance(template_string, str):
                 raise IntrinsicFailure(
-                    "States.Format failed with {}.".format(e)
+                    "States.Format failed, arg[0] is not a string."
                 )
+            # Substitute each {} with the next argument. A backslash escapes
+            # the next character, so \{ \} and \\ are literal characters.
+            # (str.format is not used as its fields can reach object attributes.)
+            result = ""
+            used = 0
+            i = 0
+            while i < len(template_string):
+                c = template_string[i]
+                if c == "\\" and i + 1 < len(template_string):
+                    result += template_string[i + 1]
+                    i += 2
+                elif c == "{" and template_string[i + 1:i + 2] == "}":
+                    if used >= len(args):
+                        raise IntrinsicFailure(
+                            "States.Format failed, more {} than arguments."
+                        )
+                    arg = args[used]
+                    used += 1
+                    result += arg if isinstance(arg, str) else json.dumps(arg)
+                    i += 2
+                elif c == "{" or c == "}":
+                    raise IntrinsicFailure(
+                        "States.Format failed, unescaped brace in template."
+                    )
+                else:
+                    result += c
+                    i += 1
+            if used != len(args):
+                raise IntrinsicFailure(
+                    "States.Format failed, more arguments than {}."
+                )
+            return result
 
         def asl_intrinsic_StringToJson(args):
             if len(args) != 1:
